@@ -481,6 +481,17 @@ pub fn run(ctx: &'static Ctx) -> (&'static str, Value, Vec<&'static str>) {
             *g = old.merge(st);
         });
         s3 = s3.merge(hs.into_inner().unwrap_or_else(|e| e.into_inner()));
+        // the same operations under the generic dimensions of history_check: one-CPU thread, async
+        // executor contexts, cross-API disturbances
+        let sg = history_check(
+            ctx,
+            "record_decompress",
+            ops.len(),
+            1,
+            |i| guarded(|| Record::new(ops[i].0.clone()).decompress().map(|x| (x.data().len(), fnv64(x.data()))).ok()),
+            |i| ops[i].2.to_string(),
+        );
+        s3 = s3.merge(sg);
         // short-read environment for the volume header
         use crate::guard::{short_read_check, SplitReader};
         for hp in 0..4u16 {
